@@ -48,6 +48,9 @@ CHECKS["C10"] = dict(technique="batched differential runtime monitor with extern
 CHECKS["C12"] = dict(technique="definitional state-dump monitor: parent dump (builtin listings, external fd table, `save` JSON of the Shell struct) before == after a mutator ran in a subshell context; inside-dump proves the mutation happened; bash self-test of the same harness; concurrent variant with pause points",
    text="Full product of 56 state mutators (assignments, unset, functions, set/shopt options, aliases, traps, cd/pushd, umask, ulimit, positional parameters, exec redirections, exit, attributes) x 16 subshell contexts (( ), $( ), backquotes, first/middle/last pipeline stage, background + wait / wait %N, process substitutions, function with subshell body, nested, redirected, last stage under set -m + lastpipe) plus random mutator sequences and concurrent runs in which a background subshell keeps mutating while the parent takes 12 dumps. The parent's state must be identical before and after; the subshell's status is compared with bash.",
    note="volatile variables masked; bash must pass the same harness (self-test sample every run); umask/ulimit process-wide are open findings C12-F1/F2 attributed only when the difference is exactly that value; status of `wait %N` not compared (known-failure tests in the repo)", ref="5 C12")
+CHECKS["C18"] = dict(technique="definitional N-invariance monitor on hooked state: `save` JSON of the Shell struct (scope / frame / virtual-fd counts), FUNCNAME depth, job table, external fdcount of /proc/<pid>/fd and zombie children, iteration output hashes",
+   text="58 fault leaves (missing files, unwritable targets, unknown commands, commands named by a path that cannot be spawned with and without temporary assignments, bad substitutions, readonly targets, return/break/continue out of nested constructs, failing redirect on a function definition, errors in $( ) and pipelines, exec open/close pairs, process substitutions, background jobs) each alone and inside random bodies of 1-4 statements mixed with grammar-generated control flow are run 40 (quick) / 300 and 1500 (thorough) times in one brush process; the internal stack depths sampled after iteration 2 and after N must be equal, no zombies, no job-table growth, OS descriptors must not grow with N, and iteration N must print what iteration 2 printed.",
+   note="iteration 1 is warm-up; OS fd count uses a growth criterion (pidfds jitter); bodies that end the session are counted separately and give no statement; relies on the experimental `save` builtin (enabled in the hooks build) as the state dump", ref="5 C18")
 NA = {}
 
 def main():
